@@ -132,6 +132,8 @@ type End struct {
 	// delay decides which writes return at once but are delivered only when
 	// the scheduler releases them (per-direction FIFO order is preserved).
 	delay func(*goat.Rpc) bool
+	// failIf makes matching writes fail (the transport stays usable otherwise).
+	failIf func(*goat.Rpc) bool
 	// IgnoreWriteCtx makes Write succeed even if ctx is already done.
 	IgnoreWriteCtx bool
 }
@@ -206,8 +208,12 @@ func (e *End) Write(ctx context.Context, rpc *goat.Rpc) error {
 		return err
 	}
 	hold := e.hold
+	failIf := e.failIf
 	e.mu.Unlock()
 
+	if failIf != nil && failIf(rpc) {
+		return ErrInjected
+	}
 	if hold != nil && hold(rpc) {
 		hw := &HeldWrite{End: e, Rpc: rpc, release: make(chan struct{})}
 		e.link.mu.Lock()
@@ -364,6 +370,13 @@ func (e *End) FailWrites(err error) {
 func (e *End) FailWriteAt(j int) {
 	e.mu.Lock()
 	e.failWriteAt = j
+	e.mu.Unlock()
+}
+
+// FailWriteIf makes every write matching pred fail (nil removes it).
+func (e *End) FailWriteIf(pred func(*goat.Rpc) bool) {
+	e.mu.Lock()
+	e.failIf = pred
 	e.mu.Unlock()
 }
 
